@@ -290,6 +290,26 @@ func RunEnumWorker(p Params) *Summary {
 				}
 			}
 			flush()
+			if p.Tier == "thorough" {
+				// three operations: every ordered pair followed by each of a subset of third operations
+				var third []string
+				for i, o := range ops {
+					if i%7 == 0 {
+						third = append(third, o)
+					}
+				}
+				for _, a := range ops {
+					for _, b := range ops {
+						for _, c := range third {
+							batch = append(batch, "["+a+","+b+","+c+"]")
+							if len(batch) == 16 {
+								flush()
+							}
+						}
+					}
+				}
+				flush()
+			}
 		}
 	}
 	// (e) every three-call history over the fixed pool of call descriptors
@@ -302,6 +322,7 @@ func RunEnumWorker(p Params) *Summary {
 			"single-byte substitution from {}[],:\"\\0-n NUL 0xFF at every offset of the same texts x every entry point x {v5, legacy}",
 			fmt.Sprintf("every ordered pair of %d small values x two-argument functions and DecodePatch/Apply x {v5, legacy}", len(smallValues)),
 			"10 operation templates x every small value x 6 documents x {v5, legacy}",
+			map[bool]string{true: "pointer algebra, three operations: every ordered pair followed by each of every 7th operation as a third (thorough tier)", false: "pointer algebra with a third operation: thorough tier only"}[p.Tier == "thorough"],
 			fmt.Sprintf("pointer algebra: every ordered pair of %d single operations (add/remove/replace/test/move/copy with path and from drawn from %d pointers around the empty reference token) x %d documents x {v5, legacy}", len(ops), len(algebraPointers), len(algebraDocs)),
 		}
 	} else {
